@@ -26,10 +26,14 @@ TEXT = dict(
           "form of the initial population size and the exact pattern in which it is below scipy's minimum; the bucket "
           "fix-ups are defined iff enough buckets exist; box inside constraints, c an integer of 1..10, noiseless box "
           "contains the data and reaches the limits; exception table (validation -> ValueError/TypeError, pre-loop -> "
-          "ValueError, box -> OptimizationError, loop -> those or exactly the two modelled defects). Tied to the code on "
+          "ValueError, box -> OptimizationError, loop -> those, or one of two modelled decision points: fewer than two buckets (ks_index_defined_iff) and a population below "
+          "scipy's minimum (population_below_scipy_minimum_iff) -- there the code before b238e9d / 2124e35 leaked IndexError / scipy's "
+          "ValueError; the check accepts only the conforming outcome of the repaired code and reports the old one as a violation). Tied to the code on "
           "every run: ~1000 stubbed calls + ~500 malformed calls (exception class vs model), ~1100 invariance "
           "comparisons of optimiser inputs (bitwise), ~48 real fits (outcome, constraints, support, bitwise invariance).",
     note="Proved: decision logic of the model. Compared, not proved: invariance and constraint satisfaction of the returned "
-         "object (black-box optimiser), support containment for the noisy class with noise 0, float arithmetic. Findings "
-         "on the unchanged tree: F2, F3, F8, F9, F10, F11 (and F6b/F6c consequences), each with an explicit input predicate.",
+         "object (black-box optimiser), support containment for the noisy class with noise 0, float arithmetic. Found here and "
+         "repaired in /repo: F2 (b238e9d), F3 (2124e35), F8 (c67d8cb), F10 (2cea7e7), float32 validation (b86de3b). Findings on the unchanged "
+         "tree: F9 and the F6b/F6c consequences, each with an explicit input predicate (F11, observations outside the support hull when the "
+         "data pin the noise to 0, no longer occurs and is not listed: its return would be reported).",
 )
